@@ -420,7 +420,7 @@ pub fn case(tape: &[u32]) -> CaseOutcome {
     let mut labels = vec![];
     for lazy in [false, true] {
         let mode = if lazy { "lazy" } else { "strict" };
-        let (actual, _) = run(&file, &tree, &index, &source, &globals, &ExecOpts { lazy, debug: None });
+        let (actual, _) = run_capped(&file, &tree, &index, &source, &globals, &ExecOpts { lazy, debug: None }, model.poll_cap());
         report.evaluations += 1;
         match (&model.outcome, &actual) {
             (_, LibRun::Panic(p)) => return CaseOutcome::Fail(Failure::new(format!("C16:{}:{}", mode, p.signature()), p.message.clone(), d(json!({})))),
